@@ -259,7 +259,9 @@ def gen_random(ctx, n_cases, max_conn):
     cases = []
     for i in range(n_cases):
         be = 1 + i % 3
-        fam = "t" if rng.random() < 0.25 else "u"
+        # loopback TCP for a bounded number of cases (every closed connection holds an
+        # ephemeral port in TIME_WAIT for a minute), AF_UNIX for the rest
+        fam = "t" if rng.random() < min(0.2, 1200.0 / max(1, n_cases)) else "u"
         hints = rng.choice([2, 3, 4, 8, 40]) if be == 2 else rng.choice([1, 8, 64])
         rd = rng.choice([1, 3, 7, 64, 4096])
         s = Sim(rng, be, hints, fam, rd)
@@ -348,7 +350,7 @@ def signature_seq(ops, a):
 def gen_pipe_runs(ctx):
     rng = ctx.rng
     runs = []
-    per = 120 if ctx.quick else 2500
+    per = 400 if ctx.quick else 12000
     for i in range(per):
         nw = rng.choice([1, 2, 2, 3, 4])
         tot = rng.randint(1, min(10, 31))
@@ -427,14 +429,14 @@ def seq_cases(ctx):
         cfgs = [(2, 2, "u", 3), (3, 8, "u", 64)]
         cases += gen_exhaustive(ctx, 2, cfgs + [(1, 8, "t", 1)])
         cases += gen_exhaustive(ctx, 3, [(2, 2, "u", 3)])[::3]
-        cases += gen_random(ctx, 450, 12)
-        cases += gen_random(ctx, 60, 33)
+        cases += gen_random(ctx, 1800, 12)
+        cases += gen_random(ctx, 300, 33)
     else:
         cfgs = [(1, 8, "u", 1), (2, 2, "u", 3), (2, 3, "t", 7), (3, 8, "u", 64), (3, 1, "t", 4096)]
         cases += gen_exhaustive(ctx, 2, cfgs)
         cases += gen_exhaustive(ctx, 3, [(1, 8, "u", 7), (2, 2, "u", 3), (3, 8, "u", 64)])
-        cases += gen_random(ctx, 6000, 12)
-        cases += gen_random(ctx, 1500, 33)
+        cases += gen_random(ctx, 60000, 12)
+        cases += gen_random(ctx, 12000, 33)
     return cases
 
 
